@@ -15,6 +15,7 @@ CONSTANTS
   DupWrite = TRUE
   WriterGuard = TRUE
   Defensive = FALSE
+  EnvOn = TRUE
 SPECIFICATION TraceSpec
 INVARIANTS TypeOK AtMostOneReply ExactlyOneWhenFinished OneLeaderPerGeneration FollowersNeverDone
   TimedOutGenerationIsTombstone FailureIsPrivate InternalSkipsJoin RegroupBound Quiescent
